@@ -24,7 +24,7 @@ impl Prop for C11 {
     fn budget(tier: Tier) -> Budget {
         match tier {
             Tier::Quick => Budget { cases: 100000, shards: 16 },
-            Tier::Thorough => Budget { cases: 800000, shards: 16 },
+            Tier::Thorough => Budget { cases: 6400000, shards: 16 },
         }
     }
 
